@@ -408,3 +408,272 @@ Example C19_original_send_refuted :
   option_map pushed (alookup key_eqb (0, 0) (heap (send_original ex_Q ord_rev 0 0 ex_ev ex_state))) = Some [0] /\
   option_map pushed (alookup key_eqb (0, 0) (heap (send ex_Q ord_id 0 0 ex_ev ex_state))) = Some [0].
 Proof. vm_compute. repeat split. Qed.
+
+(* ------------------------------------------------------------------ the decimal rendering
+   and the search theorems WITHOUT the semantic premise NumOK (DecProofs.v, SearchExact.v,
+   SearchNumerals.v, BlockNumerals.v). *)
+From Coq Require Import Ascii.
+From TM Require Import C19.DecProofs C19.SearchExact C19.SearchNumerals C19.BlockNumerals.
+
+(* 11. The lemma theorems 6, 6b and 8 were waiting for: fmt "%d" of an integer is read back as
+   that integer by the matcher (numRegex.FindString + strconv.ParseInt) AND by the indexers'
+   strconv.ParseInt exactly when it is in 0 .. MaxInt64 (a negative height would be rendered
+   "-n" and read as n by the matcher; nothing above MaxInt64 is read by either). *)
+Theorem C19_dec_NumOK : forall z : Z, NumOK (dec z) <-> (0 <= z <= max_int64)%Z.
+Proof. exact NumOK_dec_iff. Qed.
+Print Assumptions C19_dec_NumOK.
+
+(* 12. The semantic premise IS a syntactic, decidable test: a value is one on which both
+   readers return the integer it is the rendering of, iff it is non-empty, consists of digits,
+   has no leading zero (except "0") and does not exceed MaxInt64; and such a string is the
+   rendering of its value (the converse round trip). *)
+Theorem C19_NumOK_is_canonical : forall v : string,
+  (NumOK v <-> canon v = true) /\ (canon v = true -> dec (digits_val 0 v) = v).
+Proof. exact NumOK_is_canonical. Qed.
+Print Assumptions C19_NumOK_is_canonical.
+
+Example C19_NumOK_is_canonical_nonvacuous :
+  canon "9223372036854775807" = true /\ canon "0" = true /\
+  canon "007" = false /\ canon "+5" = false /\ canon "-0" = false /\
+  canon "9223372036854775808" = false /\ canon "" = false /\
+  value_as_int "007" = Some 7%Z /\ parse_int_go "007" = Some 7%Z /\
+  value_as_int "-5" = Some 5%Z /\ parse_int_go "-5" = Some (-5)%Z.
+Proof. vm_compute. repeat split. Qed.
+
+(* 13. Both readers on the non-canonical numerals an application can emit, for ALL digit
+   strings s (leading zeros allowed): s and "+s" are read alike by both (value of s if it fits
+   int64, else by neither); "-s" is read as |s| by the matcher and as -|s| by ParseInt. *)
+Theorem C19_numeral_readers : forall s : string, all_digits s = true -> s <> EmptyString ->
+  value_as_int s = read_digits s /\ parse_int_go s = read_digits s /\
+  value_as_int (String "+" s) = read_digits s /\ parse_int_go (String "+" s) = read_digits s /\
+  value_as_int (String "-" s) = read_digits s /\
+  parse_int_go (String "-" s) =
+    (if (digits_val 0 s <=? max_int64 + 1)%Z then Some (- digits_val 0 s)%Z else None).
+Proof. exact numeral_readers. Qed.
+Print Assumptions C19_numeral_readers.
+
+(* 14. Theorem 6 with the premise discharged.  For the values the indexer renders itself
+   (tx.height) nothing is left but HeightsOK (heights are int64 values >= 0); for the values the
+   application chooses, "= integer" conditions need CanonKey: the indexed values of that key
+   pass the syntactic test [canon] (SearchExact.numkey_iff: this is exactly what NumKey meant).
+   All premises are decidable properties of the history and the query. *)
+Theorem C19_search_exact : forall (h : list iop) (q : query),
+  Distinct (history_txs h) ->
+  (forall t, In t (history_txs h) -> TxDomain t) ->
+  HeightsOK (history_txs h) ->
+  q <> [] ->
+  (forall c, In c q -> wf_cond_c (history_txs h) c) ->
+  exists ids, search (run_history h) q = SOk ids /\
+    forall id, In id ids <->
+      exists t, In t (history_txs h) /\ t_hash t = id /\ matches q (tx_events t) = MTrue.
+Proof. exact SearchExact.C19_search_exact. Qed.
+Print Assumptions C19_search_exact.
+
+Example C19_search_exact_nonvacuous :
+  Distinct (history_txs nv_hist) /\
+  (forall t, In t (history_txs nv_hist) -> TxDomain t) /\
+  HeightsOK (history_txs nv_hist) /\
+  nv_q <> [] /\
+  (forall c, In c nv_q -> wf_cond_c (history_txs nv_hist) c) /\
+  search (run_history nv_hist) nv_q = SOk ["0"%string] /\
+  sat nv_q nv_t0 = true /\ sat nv_q nv_t1 = false.
+Proof. exact SearchExact.C19_search_exact_nonvacuous. Qed.
+
+(* 15. Theorem 6b with the premise discharged (integer ranges included). *)
+Theorem C19_tx_search_exact_ranges : forall (h : list iop) (q : query),
+  Distinct (history_txs h) ->
+  (forall t, In t (history_txs h) -> TxDomain t) ->
+  HeightsOK (history_txs h) ->
+  q <> [] ->
+  (forall c, In c q -> wf_cond_rc (history_txs h) c) ->
+  TxRangeShape (history_txs h) q ->
+  exists ids, search (run_history h) q = SOk ids /\
+    forall id, In id ids <->
+      exists t, In t (history_txs h) /\ t_hash t = id /\ matches q (tx_events t) = MTrue.
+Proof. exact SearchExact.C19_tx_search_exact_ranges. Qed.
+Print Assumptions C19_tx_search_exact_ranges.
+
+Example C19_tx_search_exact_ranges_full_nonvacuous :
+  Distinct (history_txs nv_hist) /\
+  (forall t, In t (history_txs nv_hist) -> TxDomain t) /\
+  HeightsOK (history_txs nv_hist) /\
+  nvr_q <> [] /\
+  (forall c, In c nvr_q -> wf_cond_rc (history_txs nv_hist) c) /\
+  TxRangeShape (history_txs nv_hist) nvr_q /\
+  search (run_history nv_hist) nvr_q = SOk ["0"%string] /\
+  sat nvr_q nv_t0 = true /\ sat nvr_q nv_t1 = false.
+Proof. exact SearchExact.C19_tx_search_exact_ranges_nonvacuous. Qed.
+
+(* 15b. A query on tx.height alone (= < <= > >=) needs no premise on attribute values: Search
+   returns exactly the transactions whose height compares that way. *)
+Theorem C19_tx_search_height_exact : forall (h : list iop) (op : opr) (H : Z),
+  Distinct (history_txs h) ->
+  (forall t, In t (history_txs h) -> TxDomain t) ->
+  HeightsOK (history_txs h) ->
+  op <> OpContains -> op <> OpExists ->
+  let q := [{| c_key := TxHeightKey; c_op := op; c_arg := OInt H |}] in
+  exists ids, search (run_history h) q = SOk ids /\
+    forall id, In id ids <->
+      exists t, In t (history_txs h) /\ t_hash t = id /\ cmp_ok op (t_height t) H = true.
+Proof. exact SearchExact.C19_tx_search_height_exact. Qed.
+Print Assumptions C19_tx_search_height_exact.
+
+(* 16. Theorem 8 (block indexer) with the premise discharged: BHeightsOK and, for integer
+   conditions on application keys, BCanonKey (SearchExact.bnumkey_iff: exactly BNumKey). *)
+Theorem C19_block_search_exact : forall (hist : list block) (q : query),
+  BConsistent hist ->
+  BHeightsOK hist ->
+  q <> [] ->
+  (forall c, In c q -> bwf_cond_c hist c) ->
+  RangeShape hist q ->
+  exists hs, bsearch (brun hist) q = BOk hs /\ StronglySorted Z.lt hs /\
+    forall h, In h hs <->
+      exists b, In b hist /\ index_ok b = true /\ b_height b = h /\
+                matches q (blk_events b) = MTrue.
+Proof. exact SearchExact.C19_block_search_exact. Qed.
+Print Assumptions C19_block_search_exact.
+
+Example C19_block_search_exact_full_nonvacuous :
+  BConsistent bnv_hist /\ BHeightsOK bnv_hist /\ bnv_q <> [] /\
+  (forall c, In c bnv_q -> bwf_cond_c bnv_hist c) /\ RangeShape bnv_hist bnv_q /\
+  bsearch (brun bnv_hist) bnv_q = BOk [1%Z] /\
+  bsat bnv_q bnv_b1 = true /\ bsat bnv_q bnv_b2 = false /\ bsat bnv_q bnv_b4 = false.
+Proof. exact SearchExact.C19_block_search_exact_nonvacuous. Qed.
+
+(* 17. ARBITRARY attribute values (no premise on them at all) under one integer condition, the
+   transaction indexer: "key = n" returns exactly the transactions carrying the LITERAL
+   rendering of n under the key; "key < <= > >= n" returns exactly those with a value that
+   strconv.ParseInt reads (whole value) as an m with m op n. *)
+Theorem C19_tx_search_int_arbitrary_values : forall (h : list iop) (k : string) (n : Z),
+  Distinct (history_txs h) ->
+  (forall t, In t (history_txs h) -> TxDomain t) ->
+  no_slash k = true -> k <> TxHashKey ->
+  (exists ids, search (run_history h) [{| c_key := k; c_op := OpEq; c_arg := OInt n |}] = SOk ids /\
+     forall id, In id ids <->
+       exists t, In t (history_txs h) /\ t_hash t = id /\ In (dec n) (tvals k t)) /\
+  (forall op, is_range_op op = true ->
+   exists ids, search (run_history h) [{| c_key := k; c_op := op; c_arg := OInt n |}] = SOk ids /\
+     forall id, In id ids <->
+       exists t, In t (history_txs h) /\ t_hash t = id /\
+         exists v m, In v (tvals k t) /\ parse_int_go v = Some m /\ cmp_ok op m n = true).
+Proof. exact tx_search_int_arbitrary_values. Qed.
+Print Assumptions C19_tx_search_int_arbitrary_values.
+
+(* 18. Hence a range condition is exact on a strictly larger class than canonical decimals:
+   wherever both readers read every value of the key alike ("007", "+7", "00" included). *)
+Theorem C19_tx_search_range_exact_readalike : forall (h : list iop),
+  Distinct (history_txs h) ->
+  (forall t, In t (history_txs h) -> TxDomain t) ->
+  forall (k : string) (op : opr) (n : Z),
+  no_slash k = true -> k <> TxHashKey -> is_range_op op = true ->
+  (forall t v, In t (history_txs h) -> In v (tvals k t) -> ReadAlike v) ->
+  let q := [{| c_key := k; c_op := op; c_arg := OInt n |}] in
+  exists ids, search (run_history h) q = SOk ids /\
+    forall id, In id ids <->
+      exists t, In t (history_txs h) /\ t_hash t = id /\ matches q (tx_events t) = MTrue.
+Proof. exact tx_search_range_exact_readalike. Qed.
+Print Assumptions C19_tx_search_range_exact_readalike.
+
+Example C19_tx_search_range_exact_readalike_nonvacuous :
+  let h := [OBatch [mk1 "0" 1 0 [("x", "007"); ("x", "+9")]; mk1 "1" 1 1 [("x", "8")]]]%string in
+  (forall t v, In t (history_txs h) -> In v (tvals "a.x" t) -> ReadAlike v) /\
+  search (run_history h) (nm_q OpGe 8) = SOk ["1"; "0"]%string /\
+  search (run_history h) (nm_q OpLt 8) = SOk ["0"]%string.
+Proof. exact tx_search_range_exact_readalike_nonvacuous. Qed.
+
+(* 19. ... and the numeric strictness of known class 17 as theorems over ALL histories and
+   values: every non-canonical numeral the matcher reads as n is a false negative of
+   "key = n"; every "-d" (d > 0) is a false positive of "key < 0" and a false negative of
+   "key > 0" (the matcher's regular expression drops the sign, ParseInt keeps it). *)
+Theorem C19_tx_search_eq_noncanonical_refuted : forall (h : list iop),
+  Distinct (history_txs h) ->
+  (forall t, In t (history_txs h) -> TxDomain t) ->
+  forall k n t v,
+  no_slash k = true -> k <> TxHashKey ->
+  In t (history_txs h) -> tvals k t = [v] -> value_as_int v = Some n -> canon v = false ->
+  let q := [{| c_key := k; c_op := OpEq; c_arg := OInt n |}] in
+  matches q (tx_events t) = MTrue /\
+  exists ids, search (run_history h) q = SOk ids /\ ~ In (t_hash t) ids.
+Proof. exact tx_search_eq_noncanonical_missed. Qed.
+Print Assumptions C19_tx_search_eq_noncanonical_refuted.
+
+Theorem C19_tx_search_range_sign_refuted : forall (h : list iop),
+  Distinct (history_txs h) ->
+  (forall t, In t (history_txs h) -> TxDomain t) ->
+  forall k t s,
+  no_slash k = true -> k <> TxHashKey ->
+  In t (history_txs h) -> tvals k t = [String "-" s] ->
+  all_digits s = true -> (0 < digits_val 0 s <= max_int64)%Z ->
+  let lt0 := [{| c_key := k; c_op := OpLt; c_arg := OInt 0 |}] in
+  let gt0 := [{| c_key := k; c_op := OpGt; c_arg := OInt 0 |}] in
+  matches lt0 (tx_events t) = MFalse /\ matches gt0 (tx_events t) = MTrue /\
+  (exists ids, search (run_history h) lt0 = SOk ids /\ In (t_hash t) ids) /\
+  (exists ids, search (run_history h) gt0 = SOk ids /\ ~ In (t_hash t) ids).
+Proof. exact tx_search_range_sign_disagrees. Qed.
+Print Assumptions C19_tx_search_range_sign_refuted.
+
+Example C19_tx_search_numerals_nonvacuous :
+  sat (nm_q OpEq 7) (nm_t "007") = true /\
+  search (run_history [OIndex (nm_t "007")]) (nm_q OpEq 7) = SOk [] /\
+  search (run_history [OIndex (nm_t "007")]) (nm_q OpGe 7) = SOk ["0"%string] /\
+  sat (nm_q OpLt 0) (nm_t "-5") = false /\
+  search (run_history [OIndex (nm_t "-5")]) (nm_q OpLt 0) = SOk ["0"%string] /\
+  sat (nm_q OpGt 0) (nm_t "-5") = true /\
+  search (run_history [OIndex (nm_t "-5")]) (nm_q OpGt 0) = SOk [].
+Proof. vm_compute. auto 10. Qed.
+
+(* 20. The same for the block indexer (application keys): literal scan for "=", ParseInt of the
+   whole value for ranges; ranges exact on ReadAlike values. *)
+Theorem C19_block_search_int_arbitrary_values : forall (hist : list block) (k : string) (n : Z),
+  k <> BlockHeightKey ->
+  (exists hs, bsearch (brun hist) [{| c_key := k; c_op := OpEq; c_arg := OInt n |}] = BOk hs /\
+     StronglySorted Z.lt hs /\
+     forall h, In h hs <-> exists b, At hist h b /\ In (dec n) (bvals k b)) /\
+  (forall op, is_range_op op = true ->
+   exists hs, bsearch (brun hist) [{| c_key := k; c_op := op; c_arg := OInt n |}] = BOk hs /\
+     StronglySorted Z.lt hs /\
+     forall h, In h hs <->
+       exists b, At hist h b /\
+         exists v m, In v (bvals k b) /\ parse_int_go v = Some m /\ cmp_ok op m n = true).
+Proof. exact block_search_int_arbitrary_values. Qed.
+Print Assumptions C19_block_search_int_arbitrary_values.
+
+Theorem C19_block_search_range_exact_readalike : forall (hist : list block) k op n,
+  k <> BlockHeightKey -> is_range_op op = true ->
+  (forall b v, In b hist -> index_ok b = true -> In v (bvals k b) -> ReadAlike v) ->
+  let q := [{| c_key := k; c_op := op; c_arg := OInt n |}] in
+  exists hs, bsearch (brun hist) q = BOk hs /\ StronglySorted Z.lt hs /\
+    forall h, In h hs <->
+      exists b, In b hist /\ index_ok b = true /\ b_height b = h /\
+                matches q (blk_events b) = MTrue.
+Proof. exact block_search_range_exact_readalike. Qed.
+Print Assumptions C19_block_search_range_exact_readalike.
+
+Example C19_block_search_numerals_nonvacuous :
+  bsat (bnm_q OpEq 7) (bnm "007") = true /\
+  bsearch (brun [bnm "007"]) (bnm_q OpEq 7) = BOk [] /\
+  bsearch (brun [bnm "007"]) (bnm_q OpGe 7) = BOk [1%Z] /\
+  bsat (bnm_q OpLt 0) (bnm "-5") = false /\
+  bsearch (brun [bnm "-5"]) (bnm_q OpLt 0) = BOk [1%Z].
+Proof. vm_compute. auto 10. Qed.
+
+(* 21. Known class 37 as a theorem over ALL block histories: a height whose only indexed block
+   carries, under the key, only a non-canonical numeral the matcher reads as n is a false
+   negative of "key = n". *)
+Theorem C19_block_search_eq_noncanonical_refuted : forall (hist : list block) k n b v,
+  k <> BlockHeightKey ->
+  In b hist -> index_ok b = true ->
+  (forall b', In b' hist -> index_ok b' = true -> b_height b' = b_height b -> b' = b) ->
+  bvals k b = [v] -> value_as_int v = Some n -> canon v = false ->
+  let q := [{| c_key := k; c_op := OpEq; c_arg := OInt n |}] in
+  matches q (blk_events b) = MTrue /\
+  exists hs, bsearch (brun hist) q = BOk hs /\ ~ In (b_height b) hs.
+Proof. exact block_search_eq_noncanonical_missed. Qed.
+Print Assumptions C19_block_search_eq_noncanonical_refuted.
+
+Example C19_block_search_eq_noncanonical_refuted_nonvacuous :
+  let hist := [bnm "007"] in
+  In (bnm "007") hist /\ index_ok (bnm "007") = true /\
+  (forall b', In b' hist -> index_ok b' = true -> b_height b' = b_height (bnm "007") -> b' = bnm "007") /\
+  bvals "a.x" (bnm "007") = ["007"%string] /\ value_as_int "007" = Some 7%Z /\ canon "007" = false.
+Proof. exact block_search_eq_noncanonical_missed_nonvacuous. Qed.
